@@ -14,7 +14,8 @@ RULE = ("Histories = the C06 program space (construction, selections of selectio
         "matrix} inserted at generated positions on generated live variables.  Metamorphic oracle: world A runs the history, "
         "world B runs it with the reads inserted; every step status, every value read by the history's own steps and the "
         "final content of every variable must be identical.  Non-trivial = at least one inserted read lands on a pending "
-        "(never materialised) view while steps remain to be executed.")
+        "(never materialised) view while steps remain to be executed."
+        "  Reads include ufuncs whose other operand is a view of the array's own cells, a one-element array or a row vector (operands must be unchanged); histories include a second array constructed on the first one's buffer.")
 ASSUMPTIONS = ["writes to X while a never-materialised selection over X's buffer is live are skipped in both worlds "
                "(counted): that region is the listed known finding K1, exercised by the directed probe",
                "applicability of steps is decided on a third, freshly-rebuilt world so that deciding is not itself a read"]
